@@ -57,6 +57,18 @@ impl<W> AsyncWriter<W> {
     pub fn into_parts(self) -> (W, Vec<u8>) {
         (self.writer, self.buffer)
     }
+
+    /// Verification hook: `(state tag, offset, buffer length, max. length)`.
+    ///
+    /// The state tag is 0 if nothing is being written and 1 while the
+    /// buffer is written starting from the offset.
+    #[cfg(minicbor_verif)]
+    pub fn verif_state(&self) -> (u8, usize, usize, usize) {
+        match self.state {
+            State::None         => (0, 0, self.buffer.len(), self.max_len),
+            State::WriteFrom(o) => (1, o, self.buffer.len(), self.max_len)
+        }
+    }
 }
 
 impl<W: AsyncWrite + Unpin> AsyncWriter<W> {
